@@ -15,6 +15,7 @@ mod nameres;
 mod replay;
 mod stacks;
 mod tables;
+mod total;
 mod transport;
 mod util;
 mod values;
@@ -51,6 +52,7 @@ fn main() {
         "bc-run" => util::run_cases(rest, bytecode::run_case),
         "transport-drive" => transport::drive(rest),
         "transport-values" => transport::values(rest),
+        "total-drive" => total::drive(rest),
         "cards-show" => drive::show(rest),
         "table-replay" => util::run_cases(rest, tables::replay_case),
         "table-drive" => tables::drive(rest),
